@@ -59,6 +59,9 @@ func NewEnv() *Env {
 	sctx := scen.PreparedSeed("prepared",
 		scen.Put(scen.B, scen.NCT, scen.BC(scen.B2, "1")),
 		scen.Put(scen.C, scen.RCT, scen.BC(scen.B1, "1")),
+		// a basket whose years-in-the-past boundary (1 January 2019 at the seed's block year 2024)
+		// is exactly the start date of batch b2: admission depends on how that calendar date is built
+		scen.YearsBasket("KYR", 5),
 	).Build(sc)
 	eco := sc.Eco.ExportGenesis(sctx, sc.Cdc)
 	dat, err := sc.DataSrv.ExportGenesis(sctx, sc.Cdc)
